@@ -726,6 +726,7 @@ def inlined(fn, repo, ci=None, rel=None, depth=2, keep=frozenset()):
     f.body = _norm_block(f.body)
     f.body = _inline_block(f.body, res, depth, (fn.name,))
     f.body = _norm_block(f.body)
+    f.body = _sink_into_branches(f.body)
     f = alpha(f)
     return set_parents(ast.fix_missing_locations(f))
 
@@ -932,6 +933,48 @@ def bool_temps_substituted(f):
         if ast.dump(f) == before:
             break
     return f
+
+
+def _sink_into_branches(stmts: List[ast.stmt]) -> List[ast.stmt]:
+    """if c: t = e1 else: t = e2 ; S(t)        ->   if c: S(e1) else: S(e2)
+    when S is the next statement, a simple statement that reads t exactly once, and t is not read anywhere else (same evaluation order)"""
+    out: List[ast.stmt] = []
+    i = 0
+    while i < len(stmts):
+        s = stmts[i]
+        for fld in ("body", "orelse", "finalbody"):
+            b = getattr(s, fld, None)
+            if isinstance(b, list) and b and isinstance(b[0], ast.stmt):
+                setattr(s, fld, _sink_into_branches(b))
+        nxt = stmts[i + 1] if i + 1 < len(stmts) else None
+        done = False
+        if isinstance(s, ast.If) and len(s.body) == 1 and len(s.orelse) == 1 and isinstance(s.body[0], ast.Assign) and isinstance(s.orelse[0], ast.Assign) \
+                and isinstance(nxt, (ast.Assign, ast.AugAssign, ast.Return, ast.Expr)):
+            a, b = s.body[0], s.orelse[0]
+            if len(a.targets) == 1 and len(b.targets) == 1 and isinstance(a.targets[0], ast.Name) and isinstance(b.targets[0], ast.Name) \
+                    and a.targets[0].id == b.targets[0].id:
+                t = a.targets[0].id
+                uses_next = [n for n in ast.walk(nxt) if isinstance(n, ast.Name) and n.id == t and isinstance(n.ctx, ast.Load)]
+                later = [n for st in stmts[i + 2:] for n in ast.walk(st) if isinstance(n, ast.Name) and n.id == t and isinstance(n.ctx, ast.Load)]
+                stored_next = any(isinstance(n, ast.Name) and n.id == t and isinstance(n.ctx, ast.Store) for n in ast.walk(nxt))
+                if len(uses_next) == 1 and (not later or stored_next) and not any(_in_closure_simple(u, nxt) for u in uses_next) and t.startswith("_t"):
+                    s1, s2 = clone(nxt), clone(nxt)
+                    s.body = [_Rename({t: a.value}).visit(s1)]
+                    s.orelse = [_Rename({t: b.value}).visit(s2)]
+                    out.append(s)
+                    i += 2
+                    done = True
+        if not done:
+            out.append(s)
+            i += 1
+    return out
+
+
+def _in_closure_simple(node, root) -> bool:
+    for n in ast.walk(root):
+        if isinstance(n, (ast.Lambda, ast.FunctionDef)) and any(x is node for x in ast.walk(n)):
+            return True
+    return False
 
 
 def _fix(f):
